@@ -1,3 +1,4 @@
+import SaVerif.Gen.AutoflushCfg
 /-
 M-ORM/autoflush: one Session with pending adds, modifications and deletes over two
 tables P(id, a) and C(id, pid, a) (relationship P.children, lazy="select",
@@ -12,8 +13,25 @@ Session._autoflush: `if self.autoflush and not            `autoflushOn` / `afSte
 Session.no_autoflush (sets self.autoflush = False)        `AfMode.ctxOff`
 context.orm_pre_session_exec: `if load_options._autoflush:  `AfMode.optOff` (execution option
   session._autoflush()`                                     autoflush=False), `Op.query`
-Session._execute_internal: "unconditionally autoflush     `Op.core` (Core select of the mapped
-  for Core statements" (#9809)                              table: ignores the execution option)
+Session._execute_internal(statement, _scalar_result):      `flushes` — the decision TABLE over
+  compile_state_cls = ORM plugin class if                    (Kind.orm, Via, AfMode, Cfg.af):
+    statement._propagate_attrs["compile_state_plugin"]       `Kind.orm` is regenerated from the real
+    == "orm" else None                                       statements (Gen.AutoflushCfg.plugin*)
+  if compile_state_cls is not None:                          ORM row: `c.af && m == .on`
+    compile_state_cls.orm_pre_session_exec(…)   [context.py: `if not is_pre_event and
+                                                  load_options._autoflush: session._autoflush()`]
+  else: self._autoflush()   # "unconditionally autoflush   Core row: ignores the execution option;
+        for Core statements" (#9809)                         flushes iff that call precedes the exit
+  if _scalar_result and not compile_state_cls:               the entry point leaves through
+      return conn.scalar(…)        # fast path               (Gen.AutoflushCfg.coreAutoflushBefore…,
+  result = orm_execute_statement(…) | conn.execute(…)        read off session.py by the translator)
+  return result.scalar() if _scalar_result else result
+Session.execute / .scalars (= execute(…).scalars()) /      `Via.execute`, `.scalars`, `.scalar`;
+  .scalar (_scalar_result=True): first column of the          `consume`: list | head of the list | None
+  first row or None
+Query.all / .first (LIMIT 1) / .one_or_none, .scalar       `Via.qAll`, `.qFirst`, `.qOne`, `.qCount`
+  (MultipleResultsFound on a second row) / .count            (all of them `Query._iter` →
+  (SELECT count(*) FROM (<query>))                            Session.execute with the Query's load options)
 Session._get_impl: identity-map hit → the instance, no    `Op.get`
   SQL, no flush (also for an instance marked deleted);
   miss → load_on_pk_identity (autoflush, SELECT)
@@ -30,9 +48,11 @@ loading.instances: rows whose identity is in the           `resultOf` (the sessi
 The database is as the session's transaction sees it; there is no other writer in
 this model (C46 covers that), expire_on_commit is off.
 
-Import-free, total, executable.
+Imports only the regenerated table SaVerif.Gen.AutoflushCfg (translator: `gen` of
+harness/props/c47.py); otherwise import-free, total, executable.
 -/
 namespace SaVerif.Autoflush
+open SaVerif.Gen.AutoflushCfg
 
 structure Key where
   t : Nat      -- 0 = P, 1 = C
@@ -75,28 +95,98 @@ inductive Q
   | joinA (v : Int)               -- select(P).join(C, C.pid == P.id).where(C.a == v).distinct()
 deriving Repr
 
+/-- the statement kinds of harness/props/c47.py (`build_stmt` / `legacy_query`) -/
+inductive Kind
+  | entity        -- select(Entity)…                                            rows (id, a)
+  | count         -- select(func.count(distinct(Entity.id))).select_from(Entity)…
+  | core          -- select(table.c.id)…  (Core select on the Table)             ids
+  | coreCount     -- select(func.count(distinct(table.c.id))).select_from(table)…
+  | text          -- text("select id from … where a = :v order by id")           ids
+  | textCount     -- text("select count(*) from (…)")
+  | existsSel     -- select(exists().where(<ORM criteria>))                      bool
+  | existsDot     -- exists().where(<ORM criteria>).select()                     bool
+  | legacy        -- session.query(table.c.id)…  (Query of Table columns only)   ids
+  | legacyCount   -- session.query(func.count(distinct(table.c.id)))…
+deriving DecidableEq, Repr
+
+/-- does the statement carry `_propagate_attrs["compile_state_plugin"] == "orm"`, i.e. is
+    `compile_state_cls` not None in `Session._execute_internal`: read off the real statements
+    by the translator (Core `exists()` does not propagate the plugin of its criteria) -/
+def Kind.orm : Kind → Bool
+  | .entity => pluginEntity
+  | .count => pluginCount
+  | .core => pluginCore
+  | .coreCount => pluginCoreCount
+  | .text => pluginText
+  | .textCount => pluginTextCount
+  | .existsSel => pluginExistsSel
+  | .existsDot => pluginExistsDot
+  | .legacy => pluginLegacy
+  | .legacyCount => pluginLegacyCount
+
+inductive Shape | ents | ids | num | flag
+deriving DecidableEq, Repr
+
+def Kind.shape : Kind → Shape
+  | .entity => .ents
+  | .core | .text | .legacy => .ids
+  | .count | .coreCount | .textCount | .legacyCount => .num
+  | .existsSel | .existsDot => .flag
+
+def Kind.isLegacy : Kind → Bool
+  | .legacy | .legacyCount => true
+  | _ => false
+
+/-- the entry point a statement is run through -/
+inductive Via
+  | execute     -- Session.execute(stmt).all()
+  | scalars     -- Session.scalars(stmt).all()
+  | scalar      -- Session.scalar(stmt): _execute_internal(_scalar_result=True)
+  | qAll        -- Query.all()
+  | qFirst      -- Query.first(): LIMIT 1, first row or None
+  | qOne        -- Query.one_or_none() / Query.scalar(): MultipleResultsFound on a second row
+  | qCount      -- Query.count(): SELECT count(*) FROM (<query>)
+deriving DecidableEq, Repr
+
+def viaOk (k : Kind) (v : Via) : Bool :=
+  match v with
+  | .execute | .scalars | .scalar => !k.isLegacy
+  | .qAll | .qFirst | .qOne => k.isLegacy
+  | .qCount => k == .legacy
+
 inductive Op
   | add (k : Key) (r : Row)
   | setA (k : Key) (v : Int)
   | setPid (k : Key) (p : Option Nat)
   | del (k : Key)
-  | query (q : Q) (m : AfMode)       -- ORM select of entities
-  | count (q : Q) (m : AfMode)       -- select(func.count()).select_from(entity)…
-  | core (q : Q) (m : AfMode)        -- Core select on the Table: ids only
-  | legacy (q : Q) (m : AfMode)      -- legacy Query of Table columns only (no ORM entity): ids
-  | legacyCount (q : Q) (m : AfMode) -- session.query(func.count(table.c.id))…
+  | read (k : Kind) (v : Via) (q : Q) (m : AfMode)   -- a statement of kind `k` run through `v`
   | get (k : Key) (m : AfMode)
   | children (p : Nat) (m : AfMode)  -- lazy load of P.children (mode optOff not applicable)
   | flush
   | commit
 deriving Repr
 
+/-- the former single-entry-point operations -/
+@[reducible] def Op.query (q : Q) (m : AfMode) : Op := .read .entity .execute q m
+@[reducible] def Op.count (q : Q) (m : AfMode) : Op := .read .count .execute q m
+@[reducible] def Op.core (q : Q) (m : AfMode) : Op := .read .core .execute q m
+@[reducible] def Op.legacy (q : Q) (m : AfMode) : Op := .read .legacy .qAll q m
+@[reducible] def Op.legacyCount (q : Q) (m : AfMode) : Op := .read .legacyCount .qOne q m
+
+/-- one element of a result, first column -/
+inductive Val
+  | ent (i : Nat) (a : Int)          -- entity (id, a) as the session's object shows it
+  | id (i : Nat)
+  | num (n : Nat)
+  | flag (b : Bool)
+deriving DecidableEq, Repr
+
 inductive Out
   | skip
   | done
-  | rows (l : List (Nat × Int))      -- (id, a) as the session's objects show them
-  | ids (l : List Nat)
-  | num (n : Nat)
+  | list (l : List Val)              -- .all() of the result, first column
+  | one (o : Option Val)             -- scalar / first: head of the result or None
+  | multi                            -- MultipleResultsFound
   | obj (o : Option (Int × Bool))    -- get: (a, marked deleted) | None
   | integrity
 deriving DecidableEq, Repr
@@ -185,6 +275,18 @@ def autoflushOn (c : Cfg) (m : AfMode) : Bool := c.af && m == .on
 /-- Core statements ignore the ORM execution option -/
 def coreFlushOn (c : Cfg) (m : AfMode) : Bool := c.af && m != .ctxOff
 
+/-- is the `self._autoflush()` of the Core branch reached before the exit the entry point
+    leaves `_execute_internal` through: `return conn.scalar(…)` for `Session.scalar`, the
+    `conn.execute(…)` for every other entry point (regenerated ordering facts) -/
+def coreCallReached : Via → Bool
+  | .scalar => coreAutoflushBeforeScalarFastPath
+  | _ => coreAutoflushBeforeExecute
+
+/-- **the autoflush decision table** of `Session._execute_internal` + `orm_pre_session_exec`
+    over (ORM plugin?, entry point, mode, Session.autoflush) -/
+def flushes (c : Cfg) (orm : Bool) (v : Via) (m : AfMode) : Bool :=
+  if orm then autoflushOn c m else coreFlushOn c m && coreCallReached v
+
 def afStep (c : Cfg) (on : Bool) (st : St) : Option St := if on then doFlush c st else some st
 
 /-- values of the returned entities: the identity map's object if there is one -/
@@ -203,6 +305,32 @@ def loadInto (st : St) (t : Nat) (ids : List Nat) : St :=
          | none, some r => some ⟨r, false, false⟩
          | none, none => none)
       else st.objs k }
+
+/-- entry points that keep the first row only -/
+def Via.isHead : Via → Bool
+  | .scalar | .qFirst => true
+  | _ => false
+
+/-- entities that stay in the (weak) identity map: those handed to the caller -/
+def loadFor (k : Kind) (v : Via) (st : St) (t : Nat) (ids : List Nat) : St :=
+  match k.shape with
+  | .ents => loadInto st t (if v.isHead then ids.take 1 else ids)
+  | _ => st
+
+/-- `.all()` of the statement's result, first column -/
+def values (k : Kind) (st : St) (t : Nat) (ids : List Nat) : List Val :=
+  match k.shape with
+  | .ents => (resultOf st t ids).map (fun e => .ent e.1 e.2)
+  | .ids => ids.map .id
+  | .num => [.num ids.length]
+  | .flag => [.flag (ids.length != 0)]
+
+/-- what the entry point hands back of the result list -/
+def consume : Via → List Val → Out
+  | .execute, l | .scalars, l | .qAll, l => .list l
+  | .scalar, l | .qFirst, l => .one l.head?
+  | .qOne, l => if l.length ≤ 1 then .one l.head? else .multi
+  | .qCount, l => .one (some (.num l.length))
 
 def keyOk (c : Cfg) (k : Key) : Bool := k.t < 2 && k.id < c.n
 
@@ -235,31 +363,13 @@ def step (c : Cfg) (st : St) : Op → St × Out
       if o.del then (st, .skip)
       else ({ st with objs := fun j => if j = k then some { o with del := true } else st.objs j }, .done)
     | none => (st, .skip)
-  | .query q m =>
-    match afStep c (autoflushOn c m) st with
+  | .read k v q m =>
+    match afStep c (flushes c k.orm v m) st with
     | none => (rolledBack st, .integrity)
     | some st1 =>
       let (t, ids) := evalQ c.n st1.db q
-      let st2 := loadInto st1 t ids
-      (st2, .rows (resultOf st2 t ids))
-  | .count q m =>
-    match afStep c (autoflushOn c m) st with
-    | none => (rolledBack st, .integrity)
-    | some st1 => (st1, .num (evalQ c.n st1.db q).2.length)
-  | .core q m =>
-    match afStep c (coreFlushOn c m) st with
-    | none => (rolledBack st, .integrity)
-    | some st1 => (st1, .ids (evalQ c.n st1.db q).2)
-  | .legacy q m =>
-    -- a Query is an ORM statement even without an entity: orm_pre_session_exec autoflushes
-    -- according to its load options, whether or not there is a plugin_subject
-    match afStep c (autoflushOn c m) st with
-    | none => (rolledBack st, .integrity)
-    | some st1 => (st1, .ids (evalQ c.n st1.db q).2)
-  | .legacyCount q m =>
-    match afStep c (autoflushOn c m) st with
-    | none => (rolledBack st, .integrity)
-    | some st1 => (st1, .num (evalQ c.n st1.db q).2.length)
+      let st2 := loadFor k v st1 t ids
+      (st2, consume v (values k st2 t ids))
   | .get k m =>
     match st.objs k with
     | some o => (st, .obj (some (o.row.a, o.del)))
@@ -284,7 +394,7 @@ def step (c : Cfg) (st : St) : Op → St × Out
       | some st1 =>
         let ids := (evalQ c.n st1.db (.byPid p)).2
         let st2 := loadInto st1 1 ids
-        (st2, .rows (resultOf st2 1 ids))
+        (st2, .list ((resultOf st2 1 ids).map (fun e => .ent e.1 e.2)))
   | .flush =>
     match doFlush c st with
     | none => (rolledBack st, .integrity)
@@ -319,7 +429,7 @@ def opOk (c : Cfg) : Op → Bool
   | .setPid k p => keyOk c k && (match p with
                                   | some p => p < c.n
                                   | none => true)
-  | .query q _ | .count q _ | .core q _ | .legacy q _ | .legacyCount q _ => qOk c q
+  | .read k v q _ => qOk c q && viaOk k v
   | .children p m => p < c.n && m != .optOff
   | .flush | .commit => true
 
